@@ -20,7 +20,7 @@ func init() {
 		Rule: "for every generated template (all standard tags incl. tablerow, cycle, include from the cache, capture, nested loops, raw/comment, every trim-marker position, a harness-registered tag and block, and application tags/blocks calling ExpandTagArg, InnerString, RenderChildren, RenderFile, EvaluateString, Set/Get): one fault-free FRender with a counting writer gives W Write calls and output O; then for EVERY k in 0..W-1 and four fault shapes (accept nothing; accept half; accept all but the last byte; fail once then accept again) the render is repeated with the injecting writer through FRender or ParseAndFRender. Non-trivial = a (template, k, shape) whose fault was actually reached; distinct = distinct (template source, k, shape).",
 		Exhaustive: func(string) bool { return true },
 		Assumptions: []string{
-			"the injected error is a unique sentinel; 'carrying that failure' is accepted as: reachable through Cause()/Unwrap() chains, or its text contained in Error()",
+			"the injected error is a unique sentinel; 'carrying that failure' means: reachable through the Cause()/Unwrap() chain of the returned SourceError",
 			"k = W (fault never reached) must reproduce O: checks that the injector is transparent",
 		},
 		MinEvents: map[string]int64{"faults_injected": 1000},
@@ -66,10 +66,19 @@ func (w *faultWriter) Write(p []byte) (int, error) {
 }
 
 func carries(se liquid.SourceError, sentinel error) bool {
+	return carriesHow(se, sentinel, true)
+}
+
+// carriesStrict: the sentinel is reachable through the Cause()/Unwrap() chain (its text in the message is not enough).
+func carriesStrict(se liquid.SourceError, sentinel error) bool {
+	return carriesHow(se, sentinel, false)
+}
+
+func carriesHow(se liquid.SourceError, sentinel error, textCounts bool) bool {
 	if se == nil {
 		return false
 	}
-	if strings.Contains(se.Error(), sentinel.Error()) {
+	if textCounts && strings.Contains(se.Error(), sentinel.Error()) {
 		return true
 	}
 	var e error = se
@@ -239,6 +248,8 @@ func runC20(c *core.Ctx) {
 					c.Violate("reported-success", "the writer failed but the render reported success", wit())
 				case !carries(res.SrcErr, sentinel):
 					c.Violate("error-does-not-carry-failure", "the returned SourceError does not carry the writer's failure", wit())
+				case !carriesStrict(res.SrcErr, sentinel):
+					c.Violate("error-does-not-wrap-failure", "the returned SourceError names the writer's failure in its message, but Cause() does not lead to it", wit())
 				}
 				if !strings.HasPrefix(O, fw.acc.String()) {
 					c.Violate("accepted-not-prefix|shape"+fmt.Sprint(shape), "bytes accepted by the writer are not a prefix of the fault-free output (rendering went on after the failure, or wrote something else)", wit())
